@@ -1023,7 +1023,12 @@ class IASolverBaseClass:  # pylint: disable=R0902
             aux = np.dot(Ukl_H, np.dot(Hkk, Vkl))
             numerator = np.dot(aux, aux.transpose().conjugate())
             denominator = np.dot(Ukl_H, np.dot(Bkl_all_l[l], Ukl))
-            SINR_kl = numerator.item() / denominator.item()
+            # Without noise a perfectly nulled interference gives a
+            # denominator exactly equal to zero: the SINR is then infinite
+            # (numpy division) instead of a ZeroDivisionError (python
+            # division).
+            with np.errstate(divide='ignore', invalid='ignore'):
+                SINR_kl = np.divide(numerator, denominator).item()
             # The imaginary part should be negligible
             SINR_k[l] = np.abs(SINR_kl)
 
